@@ -148,6 +148,12 @@ Example C10_nonvacuous :
      = Some (A2 3 [[220; 14; 23]])
   /\ view_index positive Z Z ap_Z (IxPair (AInt 0) (AInt 3)) (V2 [[1; 2; 3]] [1; 5; 20]%positive [10; -2; 100]) = None
   /\ view_reduce positive Z Z ap_Z Z.leb RMax None (V2 [[1; 2; 3]; [4; 5; 6]] [1; 5; 20]%positive [10; -2; 100]) = Some 220
+  (* two elements stored with the SAME scale and different offsets: the largest stored integer (60) is in element 0,
+     the largest value in element 1 - the extreme of the stored integers, scaled, is not the answer *)
+  /\ view_reduce positive Z Z ap_Z Z.leb RMax None (V2 [[10; 1]; [60; 6]] [2; 2]%positive [0; 1000]) = Some 1012
+  /\ view_reduce positive Z Z ap_Z Z.leb RMin None (V2 [[10; 1]; [60; 6]] [2; 2]%positive [1000; 0]) = Some 2
+  /\ match chain positive Z Z ap_Z [IxPair (ASel [1; 0]%nat) (ASel [1; 0]%nat)] (V2 [[10; 1]; [60; 6]] [2; 2]%positive [0; 1000]) with
+     | Some x => view_reduce positive Z Z ap_Z Z.leb RMax None x | None => None end = Some 1012
   /\ view_reduce positive Z Z ap_Z Z.leb RMin None (V1 [4; -3; 9] 5%positive 1) = Some (-14)
   /\ view_reduce positive Z Z ap_Z Z.leb RMax (Some 50) (V1 [4; -3; 9] 5%positive 1) = Some 50
   (* v[1, [2, 0]] is plain values; its max is a number *)
